@@ -159,6 +159,19 @@ Theorem C17_no_early_timeout : forall b h i st' o j m,
 Proof. exact no_early_timeout. Qed.
 Print Assumptions C17_no_early_timeout.
 
+(* the order of the tests in recheck_status: the incoming queue first, the connection state second.  Whatever a pass
+   completes the call with is the first queued message carrying its serial if there is one; only when there is none can it
+   be the Disconnected error or the call's own timeout error (any state, any pass) *)
+Theorem C17_reply_first : forall st i g st' o j m,
+  step st (EBlockStep i g) = (st', o) -> In (OComplete j m) o ->
+  j = i /\ exists c, nth_error (calls (u_status st)) i = Some c /\
+    match find_reply (queue (u_status st)) (c_serial c) with
+    | Some (x, _) => m = x
+    | None => m = disconnected_err (c_serial c) \/ m = noreply (c_serial c)
+    end.
+Proof. exact reply_first. Qed.
+Print Assumptions C17_reply_first.
+
 (* the timed wait is an interleaving of model events, so every [run] theorem covers it; e.g. at most once: *)
 Theorem C17_timed_block_is_run : forall st i arg clocks arrivals, is_run st (block_timed st i arg clocks arrivals).
 Proof. exact block_timed_run. Qed.
@@ -266,3 +279,7 @@ Example ex_two_threads_handover :
   filter (fun x => match x with TPoll _ | TSleep _ => true | _ => false end) o = [TPoll 0] /\
   map th_pc (ts_threads ts) = [PDone; PDone] /\ map c_completed (calls (ts_base ts)) = [true; true].
 Proof. exact faithful_handover. Qed.
+Example ex_reply_and_eof_in_one_read :
+  let r := block_timed (fst (run init [ESend false true])) 0 2147483647 [mkTv 5 0; mkTv 6 0] [[PM PReturn (inl 0%nat) 1; PClose]] in
+  t_obs r = [OComplete 0 (mkMsg (KPeer PReturn) 1 1); ONotify 0] /\ connected (t_state r) = false.
+Proof. vm_compute. split; reflexivity. Qed.
